@@ -144,6 +144,71 @@ theorem cpuRecords_total {specs : List ModelSpec} (old new : Emu) (cold : Cpu) {
     obtain ⟨i, hi, rfl⟩ := List.mem_map.mp hx
     exact emitView_total _ _ _ _ (hv m hm i (List.mem_range.mp hi))
 
+/-! ### the only way `records` fails -/
+
+theorem collect_error : ∀ {l : List (Except Err (List PrvRec))} {err : Err}, collect l = .error err →
+    ∃ x ∈ l, x = .error err
+  | [], _, h => by cases h
+  | a :: l, err, h => by
+    unfold collect at h
+    cases a with
+    | error e' =>
+      have : e' = err := by injection h
+      exact ⟨_, List.mem_cons_self, by rw [this]⟩
+    | ok r =>
+      simp only at h
+      cases hl : collect l with
+      | ok rs => rw [hl] at h; cases h
+      | error e' =>
+        rw [hl] at h
+        have : e' = err := by injection h
+        obtain ⟨x, hx, hxe⟩ := collect_error hl
+        exact ⟨x, List.mem_cons_of_mem _ hx, by rw [hxe, this]⟩
+
+theorem emitRaw_error {file row type flags : Nat} {c : Chan} {err : Err}
+    (h : emitRaw file row type flags c = .error err) : err = .prvZero := by
+  unfold emitRaw at h
+  split at h
+  · cases hv : prvValue flags c.cur with
+    | error e' => rw [hv] at h; have : e' = err := by injection h
+                  rw [← this]; exact prvValue_error hv
+    | ok v => rw [hv] at h; cases h
+  · cases h
+
+theorem emitView_error {file row type flags : Nat} {old new : Value} {err : Err}
+    (h : emitView file row type flags old new = .error err) : err = .prvZero := by
+  unfold emitView at h
+  split at h
+  · cases h
+  · cases hv : prvValue flags new with
+    | error e' => rw [hv] at h; have : e' = err := by injection h
+                  rw [← this]; exact prvValue_error hv
+    | ok v => rw [hv] at h; cases h
+
+/-- `records` fails only with "forbidden value 0" (`emit` on a type without PRV_ZERO) -/
+theorem records_error {old new : Emu} {err : Err} (h : records old new = .error err) : err = .prvZero := by
+  unfold records at h
+  obtain ⟨x, hx, hxe⟩ := collect_error h
+  rcases List.mem_append.mp hx with hx | hx
+  · obtain ⟨t, _, rfl⟩ := List.mem_map.mp hx
+    unfold threadRecords at hxe
+    obtain ⟨y, hy, hye⟩ := collect_error hxe
+    rcases List.mem_append.mp hy with hy | hy
+    · simp only [List.mem_cons, List.not_mem_nil, or_false] at hy
+      rcases hy with rfl | rfl | rfl <;> exact emitRaw_error hye
+    · obtain ⟨m, _, hy⟩ := List.mem_flatMap.mp hy
+      obtain ⟨i, _, rfl⟩ := List.mem_map.mp hy
+      exact emitView_error hye
+  · obtain ⟨c, _, rfl⟩ := List.mem_map.mp hx
+    unfold cpuRecords at hxe
+    obtain ⟨y, hy, hye⟩ := collect_error hxe
+    rcases List.mem_append.mp hy with hy | hy
+    · simp only [List.mem_cons, List.not_mem_nil, or_false] at hy
+      rcases hy with rfl | rfl | rfl <;> exact emitRaw_error hye
+    · obtain ⟨m, _, hy⟩ := List.mem_flatMap.mp hy
+      obtain ⟨i, _, rfl⟩ := List.mem_map.mp hy
+      exact emitView_error hye
+
 /-! ### the side condition -/
 
 /-- the raw value of channel `i` of model `m` of a thread can be emitted with the channel's flags
@@ -461,6 +526,24 @@ theorem stepEv_iff_emuStep {e : Emu} (h : WF e) (hz : NoZeroIds e) (hen : e.enab
       have he' : e' = e1.flushAll := by injection hs with h'; exact h'.symm
       obtain ⟨⟨rs, hrs⟩, _⟩ := records_total_step th mh h hz hen hk hm
       exact ⟨rs, (stepEv_ok_iff th mh e ev e' rs).mpr ⟨e1, hm, hrs, he'⟩⟩
+
+/-- when the emulator component accepts and the full step does not, the error is `emit`'s
+    "forbidden value 0" -/
+theorem stepEv_error_of_emuStep_ok {e e' : Emu} {ev : OEv} (hs : emuStep th mh e ev = .ok e') {err : Err}
+    (hf : stepEv e ev.1 79 ev.2.1 ev.2.2.1 ev.2.2.2 th mh = .error err) : err = .prvZero := by
+  unfold emuStep at hs
+  unfold stepEv at hf
+  cases hm : modelEvent e ev.1 79 ev.2.1 ev.2.2.1 ev.2.2.2 th mh with
+  | error e2 => rw [hm] at hs; cases hs
+  | ok e1 =>
+    rw [hm] at hf
+    simp only [ok_bind] at hf
+    cases hr : records e e1 with
+    | error e2 =>
+      rw [hr] at hf
+      have : e2 = err := by injection hf
+      rw [← this]; exact records_error hr
+    | ok rs => rw [hr] at hf; cases hf
 end
 
 end Ovni.Emu
